@@ -248,6 +248,10 @@ def run_case_files(pid, tag, imports, preamble, cases, per_file=400, timeout=600
     Returns dict(n, agree, failing=[indices])."""
     wd = os.path.join(WORK, pid)
     os.makedirs(wd, exist_ok=True)
+    # the case files may import modules outside the property's proof cone: make sure they are built and current
+    rc, out, _ = make([i.replace('.', '/') + '.vo' for i in imports if '.' in i], timeout=900)
+    if rc != 0:
+        return {'n': len(cases), 'agree': 0, 'failing': list(range(len(cases))), 'errors': ['building the imports of the case files failed: ' + out[-1200:]], 'files': 0}
     for f in os.listdir(wd):
         if f.startswith(f'cases_{tag}_'): os.remove(os.path.join(wd, f))
     files = []
